@@ -307,3 +307,151 @@ class Materialized(Contract):
             want = {id(v)}
         h.oblige(f"materialized.exactly[{Kn};stored={inst['stored']}]",
                  z3.BoolVal(got == want))
+
+
+# {{{ tag counts
+
+def _tag_classes():
+    from dataclasses import dataclass
+
+    from pytools.tag import Tag
+
+    @dataclass(frozen=True)
+    class TagA(Tag):
+        k: int = 0
+
+    @dataclass(frozen=True)
+    class TagB(Tag):
+        k: int = 0
+
+    @dataclass(frozen=True)
+    class TagC(Tag):
+        k: int = 0
+    return TagA, TagB, TagC
+
+
+TagA, TagB, TagC = _tag_classes()
+
+#: tag sets a node may carry -- two tags of one (non-unique) type included
+NODE_TAGS = {
+    "none": (),
+    "A": (("A", 1),),
+    "AA": (("A", 1), ("A", 2)),
+    "AB": (("A", 1), ("B", 1)),
+    "AAB": (("A", 1), ("A", 2), ("B", 1)),
+    "AABB": (("A", 1), ("A", 2), ("B", 1), ("B", 2)),
+}
+QUERIES = ["", "A", "B", "AB", "ABC", "C"]
+
+
+def _mk(tags):
+    cls = dict(A=TagA, B=TagB, C=TagC)
+    return frozenset(cls[c](k) for c, k in tags)
+
+
+@contract
+class TagCounts(Contract):
+    """``get_num_tags_of_type(g, T)`` = number of distinct nodes of g whose
+    tags include a tag of *every* type in T (the property's "number of nodes
+    carrying the tags"), however many tags of one type a node carries."""
+    name = "analysis.tag-count"
+    functions = ("pytato.analysis:TagCountMapper.rec",
+                 "pytato.analysis:TagCountMapper.combine",
+                 "pytato.analysis:TagCountMapper.map_size_param",
+                 "pytato.analysis:get_num_tags_of_type")
+    properties = ("C20",)
+
+    def instances(self, tier):
+        out = [dict(label=f"leaf;tags={t};query={q or '-'}", case="leaf",
+                    tags=t, query=q) for t in NODE_TAGS for q in QUERIES]
+        out += [dict(label=f"graph;query={q or '-'}", case="graph", query=q)
+                for q in QUERIES]
+        return out
+
+    def canaries(self, tier):
+        return [(dict(label="leaf;tags=AA;query=A", case="leaf", tags="AA",
+                      query="A"), "count-tags-not-nodes",
+                 "tagcount.node-counted-iff-it-carries-every-type")]
+
+    def run(self, h, inst):
+        import numpy as np
+
+        import pytato as pt
+        from pytato.analysis import TagCountMapper, get_num_tags_of_type
+        cls = dict(A=TagA, B=TagB, C=TagC)
+        query = frozenset(cls[c] for c in inst["query"])
+
+        def carries(tags):
+            return query <= {type(t) for t in tags}
+        if inst["case"] == "leaf":
+            tags = _mk(NODE_TAGS[inst["tags"]])
+            x = pt.make_placeholder("x", (3,), np.float64, tags=tags)
+            m = TagCountMapper(query)
+            got = h.call(m.rec, x)
+            want = 1 if carries(tags) else 0
+            if h.canary == "count-tags-not-nodes":
+                want = sum(1 for t in tags if type(t) in query)
+            h.oblige("tagcount.node-counted-iff-it-carries-every-type",
+                     z3.BoolVal(got == want), info=f"got {got}, want {want}")
+            return
+        n = pt.make_size_param("n")
+        x = pt.make_placeholder("x", (n,), np.float64,
+                                tags=_mk(NODE_TAGS["AA"]))
+        y = (x + x).tagged(_mk(NODE_TAGS["A"]))
+        z = (y * x).tagged(_mk(NODE_TAGS["AAB"]))
+        w = (z + 1).tagged(_mk((("B", 7),)))
+        g = pt.make_dict_of_named_arrays({"z": z, "w": w, "y": y})
+        nodes = {id(v): v for v in (n, x, y, z, w)}
+        want = sum(1 for v in nodes.values() if carries(v.tags))
+        try:
+            got = h.call(get_num_tags_of_type, g, query)
+        except EngineSignal:
+            raise
+        except Exception as e:  # noqa: BLE001
+            h.fail("tagcount.no-exception", f"{type(e).__name__}: {e}")
+            return
+        h.oblige("tagcount.graph-count-is-the-number-of-carrying-nodes",
+                 z3.BoolVal(got == want), info=f"got {got}, want {want}")
+
+    def replay(self, inst, clause, model, info):
+        return TAGCOUNT_REPLAY.format(inst=inst)
+
+
+TAGCOUNT_REPLAY = '''
+import sys
+sys.path.insert(0, "/verif")
+sys.path.append("/verif/.deps")
+import numpy as np
+import pytato as pt
+from pytato.analysis import get_num_tags_of_type
+from contracts.c20_analysis import TagA, TagB, TagC, NODE_TAGS, _mk
+from pyvc.replaylib import reproduced, not_reproduced
+inst = {inst!r}
+cls = dict(A=TagA, B=TagB, C=TagC)
+query = frozenset(cls[c] for c in inst["query"])
+carries = lambda tags: query <= {{type(t) for t in tags}}
+if inst["case"] == "leaf":
+    tags = _mk(NODE_TAGS[inst["tags"]])
+    g = pt.make_placeholder("x", (3,), np.float64, tags=tags)
+    want = 1 if carries(tags) else 0
+    what = f"a placeholder tagged {{sorted(map(repr, tags))}}"
+else:
+    n = pt.make_size_param("n")
+    x = pt.make_placeholder("x", (n,), np.float64, tags=_mk(NODE_TAGS["AA"]))
+    y = (x + x).tagged(_mk(NODE_TAGS["A"]))
+    z = (y * x).tagged(_mk(NODE_TAGS["AAB"]))
+    w = (z + 1).tagged(_mk((("B", 7),)))
+    g = pt.make_dict_of_named_arrays({{"z": z, "w": w, "y": y}})
+    want = sum(1 for v in (n, x, y, z, w) if carries(v.tags))
+    what = "the 5-node graph x{{A,A}}, y=x+x{{A}}, z=y*x{{A,A,B}}, w=z+1{{B}}, n"
+try:
+    got = get_num_tags_of_type(g, query)
+except Exception as e:
+    reproduced(f"get_num_tags_of_type raises {{type(e).__name__}}: {{e}}")
+if got != want:
+    reproduced(f"get_num_tags_of_type({{what}}, {{sorted(c.__name__ for c in query)}}) "
+               f"= {{got}}; nodes carrying every requested type: {{want}}")
+not_reproduced(f"count {{got}} as expected")
+'''
+
+# }}}
